@@ -93,9 +93,13 @@ func (m *Plugin) generateSingleFile(data *codegen.Data) error {
 		}
 	}
 
+	rootDecl := ""
 	if fileExists(data.Config.Resolver.Filename) {
 		file.name = data.Config.Resolver.Filename
 		file.imports = rewriter.ExistingImports(file.name)
+		// keep the root resolver type as the user left it (dependencies are added to it)
+		// instead of emitting a new empty one and moving the old one to the remaining source
+		rootDecl = rewriter.GetTypeDecl(file.name, data.Config.Resolver.Type)
 		file.RemainingSource = rewriter.RemainingSource(file.name)
 	}
 
@@ -104,6 +108,7 @@ func (m *Plugin) generateSingleFile(data *codegen.Data) error {
 		PackageName:         data.Config.Resolver.Package,
 		ResolverType:        data.Config.Resolver.Type,
 		HasRoot:             true,
+		RootDecl:            rootDecl,
 		OmitTemplateComment: data.Config.Resolver.OmitTemplateComment,
 	}
 
@@ -257,6 +262,7 @@ func (m *Plugin) generatePerSchema(data *codegen.Data) error {
 type ResolverBuild struct {
 	*File
 	HasRoot             bool
+	RootDecl            string // existing declaration of the root resolver type, if the file has one
 	PackageName         string
 	ResolverType        string
 	OmitTemplateComment bool
